@@ -2,7 +2,7 @@
    This is what the OCaml driver calls; each command evaluates model functions on a case that the
    Python harness also runs on the rebuilt implementation. *)
 From OptreeModel Require Export Wire Flatten Unflatten Spec Ops Registry Pickle Accessor.
-From OptreeModel Require Ravel Dataclass.
+From OptreeModel Require Ravel Dataclass Typing.
 
 Definition bad : sexp := SL [SI 2].   (* undecodable input: a harness error, never a verdict *)
 
@@ -246,6 +246,23 @@ Definition cmd_dataclass (fs : list Dataclass.dfield) : sexp :=
       SL (map (fun f => SI (Dataclass.fname f)) (Dataclass.children_fields fs));
       SL (map (fun f => SI (Dataclass.fname f)) (Dataclass.metadata_fields fs))].
 
+(* cmd 13: the class recognisers on a trait vector *)
+Definition dec_akind (z : Z) : Typing.akind :=
+  if Z.eqb z 0 then Typing.AMissing else if Z.eqb z 1 then Typing.AExact
+  else if Z.eqb z 2 then Typing.ASubclass else Typing.AOther.
+Definition cmd_traits (l : list Z) : sexp :=
+  match l with
+  | [a; b; c; d; e; f; g; h; i; j; k] =>
+    let nz (z : Z) := negb (Z.eqb z 0) in
+    let t := {| Typing.t_is_type := nz a; Typing.t_tuple_sub := nz b; Typing.t_fields := dec_akind c;
+                Typing.t_fields_all_str := nz d; Typing.t_make := nz e; Typing.t_asdict := nz f;
+                Typing.t_bases_tuple := nz g; Typing.t_nf := dec_akind h; Typing.t_nsf := dec_akind i;
+                Typing.t_nuf := dec_akind j; Typing.t_basetype := nz k |} in
+    SL [enc_bool (Typing.engine_is_namedtuple t); enc_bool (Typing.python_is_namedtuple true t);
+        enc_bool (Typing.engine_is_structseq t); enc_bool (Typing.python_is_structseq t)]
+  | _ => bad
+  end.
+
 Definition run (s : sexp) : sexp :=
   match s with
   | SL [SI 1; c; o] =>
@@ -306,6 +323,11 @@ Definition run (s : sexp) : sexp :=
   | SL [SI 12; SL fs] =>
     match omapM dec_dfield fs with
     | Some fs' => cmd_dataclass fs'
+    | None => bad
+    end
+  | SL [SI 13; SL tr] =>
+    match omapM dec_Z tr with
+    | Some l => cmd_traits l
     | None => bad
     end
   | _ => bad
